@@ -156,6 +156,132 @@ def lon_range_table(ctx, crate):
                at=b.span, kind="N", sample={"triples": n, "ties": ties, "mismatches": [list(map(str, x)) for x in bad[:4]]})
 
 
+def coo3d_invariant(ctx, crate):
+    """N: the longitude kept in a `Coo3D` lies in [0, 2pi] (and the latitude in [-pi/2, pi/2]) at
+    every construction site — the fields are private, so the sites of the module are all of them.
+    The crossing-parity test (`is_in_lon_range`, read above on longitudes of [0, 2pi)) and the
+    south-pole heuristic compare these longitudes as numbers: a vertex or a point kept with a
+    negative longitude is on the wrong side of every edge it is compared with.  Ranges are those of
+    the stored term under the comparisons that guard the site (E8, gated merges followed)."""
+    import math
+    from rules.common import frange_facts, param
+    clause = "coo3d-range"
+    ADT = "sph_geom::coo3d::Coo3D"
+    if ADT not in crate.adts:
+        ctx.undecided(clause, ADT, "type not found"); return
+    fields = [f["name"] for f in crate.adts[ADT]["variants"][0]["fields"]]
+    if "lon" not in fields or "lat" not in fields:
+        ctx.undecided(clause, ADT, "fields %s" % fields); return
+    il, ib = fields.index("lon"), fields.index("lat")
+    INF = float("inf")
+    n = 0
+    for path in sorted(pp for pp in crate.bodies if pp.startswith("sph_geom::coo3d::") or "sph_geom::coo3d::Coo3D" in pp):
+        if "::tests::" in path or "{" in path: continue
+        b = crate.body(path)
+        e = Engine(crate); got = []
+        def vh(v, loc, facts, _p=path, _g=got):
+            if v[0] == 'agg' and v[1] == 'adt:' + ADT and loc[0] == _p: _g.append((v, set(facts), loc))
+        e.value_hook = vh
+        e.run(path); ctx.functions |= e.visited_fns
+        seen = set()
+        for v, facts, loc in got:
+            if loc[2] in seen: continue
+            seen.add(loc[2])
+            env = {param(x): (-INF, INF) for x in b.param_names()}
+            rl = frange_facts(v[3][il], env, facts, eng=e)
+            rb = frange_facts(v[3][ib], env, facts, eng=e)
+            eps = 1e-12
+            ok = rl is not None and rb is not None and rl[0] >= 0.0 and rl[1] <= 2 * math.pi + eps and rb[0] >= -math.pi / 2 - eps and rb[1] <= math.pi / 2 + eps
+            n += 1
+            ctx.report(clause, "%s@%s:lon-in-[0,2pi]" % (path, n if False else loc[2].rsplit(":", 1)[0].rsplit("/", 1)[-1] + "#" + str(len(seen))), ok,
+                       "lon = %s in %s, lat = %s in %s" % (show(v[3][il])[:60], rl, show(v[3][ib])[:40], rb) if ok else
+                       "the longitude stored, %s, ranges over %s (latitude %s over %s) under the guards of this site: outside [0, 2pi] x [-pi/2, pi/2] — the polygon predicate compares these values as numbers of [0, 2pi)" % (show(v[3][il])[:80], rl, show(v[3][ib])[:40], rb),
+                       at=loc[2], kind="N")
+    ctx.floor("coo3d-construction-sites", n, 3)
+
+
+def winding_step(ctx, crate):
+    """N: the default south-pole heuristic sums, along the polygon, the longitude differences of
+    consecutive vertices taken the SHORT way round, and says `contains` when the total is a full
+    turn.  The loop's carried value is extracted (init 0, one gated update per vertex); the update is
+    read on a grid of pairs of longitudes of [0, 2pi) and must be the difference wrapped to
+    (-pi, pi) (either orientation, the same one throughout); the final test must separate a total
+    of 0 from a total of +-2pi."""
+    import math
+    from rules.common import feval
+    clause = "south-pole-heuristic"
+    fns = [pp for pp in crate.bodies if pp.endswith("::contains_south_pole") and "Basic" in pp]
+    if len(fns) != 1:
+        ctx.undecided(clause, "Basic::contains_south_pole", "found %s" % fns); return
+    fn = fns[0]
+    b = ctx.anchor(crate, fn, clause)
+    if b is None: return
+    e = Engine(crate); r = e.run(fn); ctx.functions |= e.visited_fns
+    key = "Basic::contains_south_pole:sum-of-wrapped-differences"
+    # the float value the result depends on through a loop: a merge with a constant initial value
+    S = None
+    seen = set()
+    def find_sum(t, depth=0):
+        nonlocal S
+        if S is not None or t in seen or depth > 12 or not isinstance(t, tuple): return
+        seen.add(t)
+        if t[0] == 'phi':
+            ops = e.phi_ops.get(t, ())
+            if t not in e.phi_gate and len(ops) == 2 and any(o[0] == 'c' and o[1] == 'f64' for o in ops):
+                S = t; return
+            for o in (e.phi_gate.get(t) or ops): find_sum(o, depth + 1)
+            return
+        for x in t:
+            if isinstance(x, tuple): find_sum(x, depth + 1)
+    find_sum(r.ret) if r.returns else None
+    if S is None:
+        ctx.undecided(clause, key, "no carried float sum found in %s" % (show(r.ret)[:80] if r.returns else "?"), at=b.span); return
+    ops = e.phi_ops[S]
+    init = [o for o in ops if o[0] == 'c'][0]; body = [o for o in ops if o[0] != 'c'][0]
+    leaves = []
+    seen2 = set()
+    def scan(t, depth=0):
+        if t in seen2 or depth > 30 or not isinstance(t, tuple): return
+        seen2.add(t)
+        if t == S or t[0] == 'c': return
+        if t[0] == 'phi':
+            for o in (e.phi_gate.get(t) or ()): scan(o, depth + 1)
+            return
+        if t[0] in ('op', 'un', 'cast'):
+            for x in t[3:]: scan(x, depth + 1)
+            return
+        if t[0] == 'call':
+            for x in t[2]: scan(x, depth + 1)
+            return
+        leaves.append(t)
+    scan(body)
+    if len(leaves) != 2:
+        ctx.undecided(clause, key, "expected two longitudes in the update, found %s" % [show(x)[:60] for x in leaves], at=b.span); return
+    A, B = leaves
+    from mir import f64_from_bits
+    grid = [0.0, 0.3, 1.0, 2.0, 3.0, 3.5, 4.5, 5.9, 6.25]
+    res = {+1: [], -1: []}; n = 0
+    for a in grid:
+        for c in grid:
+            d = a - c
+            if abs(abs(d) - math.pi) < 1e-6: continue
+            w = d if abs(d) < math.pi else (d - 2 * math.pi if d > 0 else d + 2 * math.pi)
+            got = feval(body, {S: 0.0, A: a, B: c}, e)
+            if got is None:
+                ctx.undecided(clause, key, "cannot read the update at (%s, %s)" % (a, c), at=b.span); return
+            n += 1
+            for o in (+1, -1):
+                if abs(got - o * w) > 1e-12: res[o].append((a, c, got, o * w))
+    bad = min(res.values(), key=len)
+    ok_init = f64_from_bits(init[2]) == 0.0
+    # the final test: false on a total of 0, true on a total of +-2pi (the vertex count being favourable)
+    ctx.report(clause, key, not bad and ok_init and n >= 70,
+               "%d pairs of longitudes: the update adds the difference wrapped to (-pi, pi); the sum starts at 0" % n if not bad and ok_init else
+               ("the sum starts at %r" % f64_from_bits(init[2]) if not ok_init else
+                "%d of %d pairs wrong, e.g. longitudes %s and %s add %r to the sum, the short way round is %r — a polygon that crosses lon = 0 gets a total of +-2pi and is turned inside out" % (len(bad), n, bad[0][0], bad[0][1], bad[0][2], bad[0][3])),
+               at=b.span, kind="N", sample={"pairs": n, "mismatches": [list(map(str, x)) for x in bad[:3]]})
+
+
 def count_rule(ctx, crate):
     clause = "vertex-count"
     b = ctx.anchor(crate, NVIP, clause)
@@ -331,6 +457,8 @@ def run(ctx):
     recur_rules(ctx, crate)
     count_rule(ctx, crate)
     lon_range_table(ctx, crate)
+    coo3d_invariant(ctx, crate)
+    winding_step(ctx, crate)
     driver(ctx, crate)
     from rules.c09 import recursion_shape
     recursion_shape(ctx, crate, RECUR)
